@@ -71,7 +71,9 @@ Inductive rt_value : val -> ty -> Prop :=
 | RNewType n t v : rt_value v t -> rt_value v (TNewType n t)
 | RAnnot t v : ann = true -> rt_value v t -> rt_value v (TAnnot t).
 
-(* ---- C03: primitive data *)
+(* ---- C03: x is a value of t whose unstructured form is claimed to be primitive: exact container kinds as
+   in [conforms], instances of classes of the environment at every depth -- also at Any-typed positions,
+   where the value is looked at through its runtime class -- and literal values that are primitives. *)
 Fixpoint primitive (v : val) : bool :=
   match v with
   | VNone | VAtom _ _ => true
@@ -79,5 +81,24 @@ Fixpoint primitive (v : val) : bool :=
   | VList l | VTuple l | VSet l | VFrozenSet l => forallb primitive l
   | VDict kvs => forallb (fun kv => primitive (fst kv) && primitive (snd kv)) kvs
   end.
+
+Inductive uval : val -> ty -> Prop :=
+| UAnyNone : uval VNone TAny
+| UAny v : v <> VNone -> uval v (rt_type v) -> uval v TAny
+| UPrim p e : uval (VAtom p e) (TPrim p)
+| UEnum en i : uval (VEnum en i) (TEnum en)
+| ULit v vs : primitive v = true -> uval v (TLit vs)
+| UList l t : Forall (fun x => uval x t) l -> uval (VList l) (TList t)
+| UTupleHom l t : Forall (fun x => uval x t) l -> uval (VTuple l) (TTupleHom t)
+| UTuple l ts : Forall2 uval l ts -> uval (VTuple l) (TTuple ts)
+| USet l t : Forall (fun x => uval x t) l -> uval (VSet l) (TSet t)
+| UFrozenSet l t : Forall (fun x => uval x t) l -> uval (VFrozenSet l) (TFrozenSet t)
+| UDict kvs kt vt : Forall (fun kv => uval (fst kv) kt /\ uval (snd kv) vt) kvs -> uval (VDict kvs) (TDict kt vt)
+| UOptNone t : uval VNone (TOpt t)
+| UOptSome v t : uval v t -> uval v (TOpt t)
+| UClass c cd i : e_class E c = Some cd ->
+    (forall n v, assoc i n = Some v -> uval v (field_ty cd n)) -> uval (VInst c i) (TClass c)
+| UNewType n t v : uval v t -> uval v (TNewType n t)
+| UAnnot t v : uval v t -> uval v (TAnnot t).
 
 End Spec.
